@@ -315,6 +315,12 @@ pub fn binder_scope_programs() -> Vec<String> {
         "(v, w) := (5, 6)",
         "[1]~ @ (v: int) -> int { return v; } $]",
         "{ (v, w) := (5, 6); }",
+        // the part of the construct that does not bind v uses the outer v
+        "n := if v: float = 5 { 0 } else { v }",
+        "if v: float = 5 { } else { w := v; }",
+        "n := match 5 { v: float => 0, => v, }",
+        "n := match 5 { v: float => 0, w: int => v, }",
+        "n := if v: int = 5 { v } else { v }; w := if q: float = 5 { 1 } else { v }",
     ];
     // uses of v at type int afterwards
     let uses = ["v + 1", "[v][0] * 2", "-v", "v"];
@@ -327,6 +333,9 @@ pub fn binder_scope_programs() -> Vec<String> {
             out.push(format!("{src}f := (v: string) -> any {{ {b}; r := {u}; return r; }}; f(\"text\")"));
             // the outer v is a top-level variable that is not a constant, and a constant
             out.push(format!("{src}h := () -> string {{ return \"text\"; }}; v := h(); {b}; {u}"));
+            // the outer v is a run-time value captured by the function the construct sits in
+            out.push(format!("{src}h := () -> string {{ return \"text\"; }}; v := h(); f := () -> any {{ {b}; r := {u}; return r; }}; f()"));
+            out.push(format!("{src}v := mut 7; f := () -> any {{ {b}; r := {u}; return r; }}; (f(), f())"));
             out.push(format!("{src}v := \"text\"; {b}; {u}"));
             // no outer v at all
             out.push(format!("{src}{b}; {u}"));
